@@ -71,10 +71,9 @@ def variants(obj, rng, pool, per_field=8, others=()):
                     sib = getattr(obj, g.name)
                 except AttributeError:
                     continue
-                if g is not f and sib is not None and not isinstance(sib, (bool, int, str, bytes, bytearray, list, tuple, dict, set)):
+                if g is not f and sib is not None and not isinstance(sib, (bool, int, str, bytes, bytearray, list, tuple, dict, set, enum.Enum)):
                     cands.append(('sibling1', [sib]))
                     cands.append(('sibling2', [sib, sib]))
-                    break
         if cur is None:
             for o in others:
                 v = getattr(o, f.name, None)
